@@ -145,3 +145,37 @@ def r_escpair(P, chk):
             if a != b and b.startswith(a):
                 chk.violation(rid, "unesc:prefix:%s" % a, "xml.c:%d" % line, "entity %r is a prefix of %r: ambiguous" % (a, b))
     chk.analysed[rid] = {"unescaper_entities": lits}
+
+
+def r_escaper_complete(P, chk, formats=("html", "odf")):
+    rid = "R-ESCAPER"
+    chk.rule(rid, "each format's character escaper maps every reserved character of the target to an escaped form (EDPE over all bytes)")
+    specs = {
+        "html": ("mmd_print_char_html", "html.c", {"&": "&amp;", "<": "&lt;", ">": "&gt;", '"': "&quot;"}),
+        "odf": ("mmd_print_char_opendocument", "opendocument-content.c", {"&": "&amp;", "<": "&lt;", ">": "&gt;", '"': "&quot;"}),
+        "latex": ("mmd_print_char_latex", "latex.c", {c: None for c in "\\{}$%&#_^~"}),
+    }
+    for fmt in formats:
+        fn, unit, need = specs[fmt]
+        f = P.func(fn, unit)
+        E, dk = escaper_table(f)
+        for ch, want in need.items():
+            lit, passthru, other = E[ord(ch)]
+            if want is not None:
+                ok = lit is not None and want in lit and not passthru
+            else:
+                # LaTeX: either a replacement literal, or an escape prefix followed by the character
+                ok = lit is not None and (not passthru or lit.endswith("\\") or lit.startswith("$"))
+            chk.obligation(rid, "%s: %r -> %r%s" % (fn, ch, lit, " + char" if passthru else ""), ok)
+            if not ok:
+                chk.violation(rid, "escaper:%s:%s" % (fn, ch), f.where(), "%s does not escape %r (emits %r%s)" % (
+                    fn, ch, lit, " followed by the raw character" if passthru else ""))
+    for fn, unit in (("mmd_print_string_html", "html.c"), ("mmd_print_string_opendocument", "opendocument-content.c")):
+        if fn.split("_")[-1] not in ("html", "opendocument"):
+            continue
+        f = P.func(fn, unit)
+        target = fn.replace("string", "char")
+        ok = any(True for _ in f.calls(target))
+        chk.obligation(rid, "%s prints every byte through %s" % (fn, target), ok)
+        if not ok:
+            chk.violation(rid, "escaper:%s:bypass" % fn, f.where(), "%s no longer routes characters through %s" % (fn, target))
